@@ -498,6 +498,167 @@ def r178(ctx, repo):
 # ----------------------------------------------------------------------
 # finite-model evaluation of the global memo (R17.1 – R17.3)
 
+def _identity_memo_sites(tree):
+    """[(function, compare node, return node)]: a function that compares
+    one of its arguments *by identity* (``is``, ``id(..)``) with persistent
+    state (an attribute of self / the class, a module-level object) and
+    returns a value taken from persistent state: a memo keyed on the
+    identity of the argument."""
+    modlevel = set()
+    for st in tree.body:
+        if isinstance(st, (ast.Assign, ast.AnnAssign)):
+            tg = st.targets if isinstance(st, ast.Assign) else [st.target]
+            for t in tg:
+                if isinstance(t, ast.Name):
+                    modlevel.add(t.id)
+    classes = {st.name for st in ast.walk(tree)
+               if isinstance(st, ast.ClassDef)}
+    out = []
+    for f in ast.walk(tree):
+        if not isinstance(f, (ast.FunctionDef, ast.AsyncFunctionDef)):
+            continue
+        a = f.args
+        params = [x.arg for x in a.posonlyargs + a.args + a.kwonlyargs]
+        if a.vararg:
+            params.append(a.vararg.arg)
+        if a.kwarg:
+            params.append(a.kwarg.arg)
+        selfname = params[0] if params and params[0] in ("self", "cls") \
+            else None
+        pset = set(params) - {selfname}
+        binds = {}
+
+        def bind(target, value):
+            # element-wise through tuples, zip and enumerate
+            if isinstance(target, (ast.Tuple, ast.List)):
+                if isinstance(value, (ast.Tuple, ast.List)) and len(
+                        value.elts) == len(target.elts):
+                    for t, v in zip(target.elts, value.elts):
+                        bind(t, v)
+                    return
+                if isinstance(value, ast.Call) and isinstance(
+                        value.func, ast.Name) and not value.keywords:
+                    if value.func.id == "zip" and len(value.args) == len(
+                            target.elts):
+                        for t, v in zip(target.elts, value.args):
+                            bind(t, v)
+                        return
+                    if value.func.id == "enumerate" and value.args \
+                            and len(target.elts) == 2:
+                        bind(target.elts[1], value.args[0])
+                        return
+            for nm in ast.walk(target):
+                if isinstance(nm, ast.Name):
+                    binds.setdefault(nm.id, []).append(value)
+        for n in ast.walk(f):
+            if isinstance(n, ast.Assign):
+                for t in n.targets:
+                    bind(t, n.value)
+            elif isinstance(n, (ast.comprehension, ast.For, ast.AsyncFor)):
+                bind(n.target, n.iter)
+            elif isinstance(n, ast.NamedExpr):
+                binds.setdefault(n.target.id, []).append(n.value)
+        stored = set(binds)
+
+        def roots(e, depth=4, seen=()):
+            r = set()
+            for n in ast.walk(e):
+                if isinstance(n, ast.Name) and isinstance(n.ctx, ast.Load):
+                    if n.id == selfname:
+                        r.add("state")
+                    elif n.id in pset and n.id not in stored:
+                        r.add("param")
+                    elif n.id in stored:
+                        if n.id in pset:
+                            r.add("param")
+                        if depth and n.id not in seen:
+                            for v in binds[n.id]:
+                                r |= roots(v, depth - 1, seen + (n.id,))
+                    elif n.id in modlevel or n.id in classes:
+                        r.add("state")
+            return r
+
+        tests = []
+        for n in ast.walk(f):
+            if isinstance(n, ast.Compare):
+                sides = [n.left] + list(n.comparators)
+                ident = any(isinstance(o, (ast.Is, ast.IsNot))
+                            for o in n.ops) or any(
+                    isinstance(c, ast.Call) and isinstance(c.func, ast.Name)
+                    and c.func.id == "id" for sd in sides
+                    for c in ast.walk(sd))
+                if not ident or any(isinstance(sd, ast.Constant)
+                                    for sd in sides):
+                    continue
+                if any(isinstance(sd, ast.Name) and sd.id == selfname
+                       for sd in sides):
+                    continue
+                rs = [roots(sd) for sd in sides]
+                if any("param" in x for x in rs) and any(
+                        "state" in x and "param" not in x for x in rs):
+                    tests.append(n)
+        if not tests:
+            continue
+        rets = [n for n in ast.walk(f) if isinstance(n, ast.Return)
+                and n.value is not None and "state" in roots(n.value)]
+        for t in tests:
+            for r in rets[:1]:
+                out.append((f, t, r))
+    return out
+
+
+def r179(ctx, repo):
+    """no memo keyed on the identity of an argument, anywhere in the
+    package: arrays are mutable, the same object can hold other content at
+    the next call (in-place edits between two calls)"""
+    # positive control: the idiom must be recognised on every run
+    ctrl = ast.parse(
+        "_last = {'x': None, 'r': None}\n"
+        "def f(x):\n"
+        "    if _last['x'] is x:\n"
+        "        return _last['r']\n"
+        "    _last.update(x=x, r=g(x))\n"
+        "    return _last['r']\n"
+        "class C:\n"
+        "    def m(self, *args):\n"
+        "        if all(a is b for a, b in zip(args, self._last[0])):\n"
+        "            return self._last[1]\n"
+        "        return h(args)\n"
+        "    def ok(self, other):\n"
+        "        if other is self:\n"
+        "            return self._v\n"
+        "        return other.value is None\n")
+    if len(_identity_memo_sites(ctrl)) != 2:
+        raise AnalysisError("R17.9 positive control: identity-keyed memo "
+                            "idioms are not recognised")
+    nfun = 0
+    bad = []
+    for rel in repo.files("dclab/", suffixes=(".py", ".pyx")):
+        try:
+            tree = repo.tree(rel)
+        except AnalysisError:
+            raise
+        nfun += sum(isinstance(n, (ast.FunctionDef, ast.AsyncFunctionDef))
+                    for n in ast.walk(tree))
+        for f, t, r in _identity_memo_sites(tree):
+            bad.append((rel, f, t, r))
+    if nfun < 600:
+        raise AnalysisError(f"R17.9 scanned only {nfun} functions")
+    for rel, f, t, r in bad:
+        ctx.ob("R17.9", False,
+               f"`{short(t, 60)}` in {f.name} compares an argument by "
+               f"identity with stored state and `{short(r, 40)}` returns "
+               "the stored value: a memo keyed on the identity of a mutable "
+               "argument serves the result for the old content after an "
+               "in-place modification", node=t,
+               label=f"no identity-keyed memo in {f.name}")
+    ctx.ob("R17.9", not bad, f"{nfun} functions of the package: none "
+           "returns stored state under an identity test of an argument"
+           if not bad else f"{len(bad)} identity-keyed memo(s)",
+           node=repo.tree(CA), key="dclab::package::no identity-keyed memo")
+    ctx.stat("R17.9 functions scanned", nfun)
+
+
 def r17_eval(ctx, repo):
     """`Cache` (loaded from its syntax tree) evaluated on model functions,
     model arrays and a concatenating model of md5: which calls share an
@@ -542,6 +703,13 @@ def r17_eval(ctx, repo):
         ("(1.0,)", (1.0,), {}),
         ("(True,)", (True,), {}),
         ("(None,)", (None,), {}),
+        ("(None, 'x')", (None, "x"), {}),
+        ("('x', None)", ("x", None), {}),
+        ("('x',)", ("x",), {}),
+        ("('x', a=None)", ("x",), {"a": None}),
+        ("('x', b=None)", ("x",), {"b": None}),
+        ("('x', False)", ("x", False), {}),
+        ("('x', 0)", ("x", 0), {}),
         ("()", (), {}),
         ("(a=1)", (), {"a": 1}),
         ("(b=1)", (), {"b": 1}),
@@ -607,6 +775,59 @@ def r17_eval(ctx, repo):
     if r3[0] != "ok":
         fail("array layout independent", "a non-contiguous array argument "
              f"-> {r3!r}")
+    # the argument objects of the previous call, edited in place: the
+    # content decides, not the identity
+    m2 = Model(repo, max_size=1000)
+    f3 = Fn("downsample_grid", "doc", "dclab/downsampling.py")
+    w3 = m2.wrap(f3)
+    E1 = MArr(raw, "<u2", (4,))
+    E2 = MArr(raw, "<u2", (4,))
+    for label, args, kw in (("f(E1, E2, 5)", (E1, E2, 5), {}),
+                            ("f(E1, b=E2)", (E1,), {"b": E2})):
+        E2.edit_in_place(raw)
+        r1 = m2.call(w3, *args, **kw)
+        n0 = len(f3.calls)
+        E2.edit_in_place(raw[:-2] + b"\x7f\x00")
+        r2 = m2.call(w3, *args, **kw)
+        if r1[0] != "ok" or r2[0] != "ok":
+            fail("callable", f"{label} -> {r1!r}, {r2!r}")
+        elif r1 == r2 or len(f3.calls) != n0 + 1:
+            fail("in-place edit recomputes", f"{label} with the same array "
+                 "objects after one of them was modified in place returns "
+                 "the result computed for the old content")
+    # a named signature with two options: different subsets of the options
+    # are different computations under every binding of the arguments
+    m3 = Model(repo, max_size=1000)
+    f4 = Fn("downsample_grid", "doc", "dclab/downsampling.py",
+            params=("a", "b", "samples", "remove_invalid", "ret_idx"),
+            defaults=(False, False))
+    w4 = m3.wrap(f4)
+    outs4 = {}
+    for label, args, kw in (
+            ("f(A, B, 5)", (A1, A1, 5), {}),
+            ("f(A, B, 5, ret_idx=True)", (A1, A1, 5), {"ret_idx": True}),
+            ("f(A, B, 5, remove_invalid=True)", (A1, A1, 5),
+             {"remove_invalid": True}),
+            ("f(A, B, 5, False, True)", (A1, A1, 5, False, True), {}),
+            ("f(A, B, 5, True, True)", (A1, A1, 5, True, True), {}),
+            ("f(A, B, 5, True, False)", (A1, A1, 5, True, False), {}),
+            ("f(A, B, samples=6)", (A1, A1), {"samples": 6})):
+        r = m3.call(w4, *args, **kw)
+        if r[0] != "ok":
+            fail("callable", f"{label} -> {r!r}")
+            continue
+        # the spellings of one binding may share an entry
+        bound = dict(zip(("a", "b", "samples", "remove_invalid", "ret_idx"),
+                         (None, None, None, False, False)))
+        bound.update(zip(("a", "b", "samples", "remove_invalid", "ret_idx"),
+                         [id(x) if isinstance(x, MArr) else x for x in args]))
+        bound.update({k: v for k, v in kw.items()})
+        bkey = tuple(sorted((k, repr(v)) for k, v in bound.items()))
+        for (ol, ob), ov in outs4.items():
+            if ov == r[1] and ob != bkey:
+                fail("key injective", f"{label} returns the cached result "
+                     f"of {ol}: different options share an entry")
+        outs4[(label, bkey)] = r[1]
     # function identity
     m = Model(repo, max_size=1000)
     variants = [("kde_histogram", "doc", "dclab/kde_methods.py"),
@@ -681,6 +902,9 @@ def r17_eval(ctx, repo):
          "returns the stored result without computing"),
         ("R17.1", "miss computes", call_node, "a miss calls the function "
          "with exactly the given arguments"),
+        ("R17.1", "in-place edit recomputes", call_node, "the same "
+         "argument objects with edited content are computed again (the "
+         "content decides, not the identity)"),
         ("R17.2", "equal arrays share", upd_node, "equal arrays share an "
          "entry"),
         ("R17.2", "array layout independent", upd_node, "non-contiguous "
@@ -698,6 +922,9 @@ def r17_eval(ctx, repo):
     for rule, key, node, good in obs:
         ok = key not in fails
         ctx.ob(rule, ok, good if ok else fails[key], node=node, label=key)
+    unknown = set(fails) - {k for _, k, _, _ in obs}
+    if unknown:
+        raise AnalysisError(f"r17_eval: unregistered verdicts {unknown}")
     ctx.stat("R17 model calls: distinct argument lists", len(distinct))
 
 
@@ -723,9 +950,20 @@ def run(ctx):
     r175(ctx, repo)
     r176(ctx, repo)
     r177(ctx, repo)
+    ctx.rule("R17.9", "no memo keyed on the identity of an argument",
+             minimum=1)
+    r179(ctx, repo)
 
 
 MUTANTS = [
+    ("identity-keyed memo in get_bad_vals (seeded C17_12)", KDE,
+     ("    return np.isnan(x) | np.isinf(x) | np.isnan(y) | np.isinf(y)\n",
+      "    if _last_bad[0] is x and _last_bad[1] is y:\n"
+      "        return _last_bad[2]\n"
+      "    _last_bad[:] = [x, y, np.isnan(x) | np.isinf(x) | np.isnan(y)"
+      " | np.isinf(y)]\n"
+      "    return _last_bad[2]\n\n\n_last_bad = [None, None, None]\n"),
+     "R17.9"),
     ("dtype enters the key by name only (seeded C17_9)", CA,
      ("{arg.dtype.str}", "{arg.dtype.name}"), "R17."),
     ("kw values not hashed", CA,
